@@ -246,6 +246,15 @@ func (w *World) Violate(prop, key, format string, a ...any) {
 		Height: w.Height, OpID: w.curOp})
 }
 
+// Base is the height before the chain's first block (0 for an ordinary new chain): heights
+// that a workload places relative to the start of the chain are Base()+k.
+func (w *World) Base() int64 {
+	if w.Cfg.InitialHeight > 1 {
+		return w.Cfg.InitialHeight - 1
+	}
+	return 0
+}
+
 // Count adds to a named counter (probe / fault / coverage counter).
 func (w *World) Count(name string, n int64) { w.Counts[name] += n }
 
